@@ -43,7 +43,9 @@ Observe(o, e) ==
                          !.prevRun = IF o.run >= 0 THEN [valid |-> TRUE, run |-> o.run, cfg |-> o.cfg0, cers |-> o.cers]
                                      ELSE o.prevRun]
       [] e.ev = "Reconfig" ->       \* the environment changed between two ceremonies
-           [o EXCEPT !.cfg = e.d.cfg]
+           \* (the ceremony that finished before the change was judged under the configuration it ran with: it is no
+           \* longer the "current" one once the configuration differs)
+           [o EXCEPT !.cfg = e.d.cfg, !.b = [api |-> "none"], !.evs = <<>>, !.last = "Reconfig", !.active = FALSE]
       [] e.ev = "Begin" ->
            [o EXCEPT !.active = TRUE, !.b = e.d, !.snap0 = o.snap, !.evs = <<>>, !.last = "Begin"]
       [] e.ev = "Store" ->
